@@ -18,7 +18,12 @@ Property clause → theorem
       Begin/EndBlocker OUTSIDE every ApplyFuncIfNoError closure is on the reviewed list below — `pureHelpers`,
       `storeAccess`, `expanded`, `opsTotal` (each with its justification; where the justification is a theorem it
       is stated: `slice_in_bounds`, `sweep_bounds_in_range`, `borrow_sweep_total`), `reviewedUnproved`
-      (read and exercised, not proved — this is why the level is *partial*) or on one of the two defect lists:
+      (the IBC oracle request: read and exercised, not proved — one reason why the level is *partial*) or on one of the three
+      defect lists:
+  - **D-C15-1** (OPEN) `kickoffDC151`: the surplus / debt kick-off of `liquidationsV2.BeginBlocker` is unwrapped; it cannot
+    panic but it moves the lot out of the collector BEFORE it knows an English auction can start and returns at the first
+    failing entry: `kickoff_leaks_counterexample`, `kickoff_repeats` (n blocks ⇒ n lots), against
+    `kickoff_complete_if_english_on`; the repair is `kickoff_wrapped_is_atomic`. Witness first in the harness run (`kick.*`).
   - **D3** `conditionalD3`: `totalVaults[start:end]` in both vault sweeps is total only if the stored vault counter
     does not exceed the capacity of the stored vault list — `sweep_total_if_counter_le_cap`; the counter is NOT
     kept equal to the list on chain (double increment, `x/auction/keeper/dutch.go:554-559` +
@@ -534,18 +539,27 @@ def conditionalD3 : List (String × String × String) := [
   ("liquidationsV2.BeginBlocker", "LiquidateVaults", "slice totalVaults[start:end]")
 ]
 
-/-- read, judged panic-free for states the keepers can produce, exercised by the environment-fault runs — NOT proved:
-`sdk.Int`/`sdk.Dec` arithmetic on stored collector thresholds (panics only beyond 256 bits), coin construction
-from stored asset denoms, the surplus/debt kick-off (returns its errors to `Liquidate`, which the blocker logs),
-the IBC oracle request (`SendPacket` returns an error, `obi.MustEncode` of a fixed struct type). -/
-def reviewedUnproved : List (String × String × String) := [
+/-- **D-C15-1** (OPEN): the surplus / debt kick-off of the second generation runs outside every wrapper. No panic is
+reachable (256-bit `sdk.Int` arithmetic on governance-set thresholds; `DebtTokenAmount` / `SurplusTokenAmount` return empty
+coins only for a collector asset that does not exist, which `WasmSetCollectorLookupTable` refuses), but the step is NOT
+all-or-nothing and a failing entry stops the loop: `surplusKickRaw`, `kickoff_leaks_counterexample`, `kickoff_repeats`;
+witness replayed first in the harness run (`kick.*`), monitors `kickoff_atomic`, `kickoff_remaining`. With the repair
+(`kickoff_wrapped_is_atomic`) these entries leave the unwrapped part of the table. -/
+def kickoffDC151 : List (String × String × String) := [
   ("liquidationsV2.BeginBlocker", "CheckStatsForSurplusAndDebt", "collector.DebtThreshold.Sub"),
   ("liquidationsV2.BeginBlocker", "CheckStatsForSurplusAndDebt", "collector.SurplusThreshold.Add"),
   ("liquidationsV2.BeginBlocker", "CheckStatsForSurplusAndDebt", "netFeeCollectedData.NetFeesCollected.LTE"),
   ("liquidationsV2.BeginBlocker", "CheckStatsForSurplusAndDebt", "netFeeCollectedData.NetFeesCollected.GTE"),
   ("liquidationsV2.BeginBlocker", "CheckStatsForSurplusAndDebt", "k.DebtTokenAmount"),
   ("liquidationsV2.BeginBlocker", "CheckStatsForSurplusAndDebt", "k.SurplusTokenAmount"),
-  ("liquidationsV2.BeginBlocker", "CheckStatsForSurplusAndDebt", "k.CreateLockedVault"),
+  ("liquidationsV2.BeginBlocker", "CheckStatsForSurplusAndDebt", "k.CreateLockedVault")
+]
+
+/-- read, judged panic-free, exercised by the feed histories over a real IBC channel — NOT proved (the IBC keeper is outside
+the model): `obi.MustEncode` of the fixed struct type `FetchPriceCallData` (a panic would be a static type error of the
+encoder, independent of state), `SendPacket` (returns an error, which `FetchPrice` turns into `nil, nil` before any write of
+its own, `x/bandoracle/keeper/oracle.go:102-112`). -/
+def reviewedUnproved : List (String × String × String) := [
   ("bandoracle.BeginBlocker", "FetchPrice", "obi.MustEncode"),
   ("bandoracle.BeginBlocker", "FetchPrice", "k.channelKeeper.SendPacket")
 ]
@@ -554,7 +568,7 @@ def key (e : Entry) : String × String × String := (e.blocker, e.inFn, e.callee
 
 def reviewed (e : Entry) : Bool :=
   pureHelpers.contains e.callee || storeAccess.contains (key e) || expanded.contains (key e) || opsTotal.contains (key e) ||
-  conditionalD3.contains (key e) || reviewedUnproved.contains (key e)
+  conditionalD3.contains (key e) || kickoffDC151.contains (key e) || reviewedUnproved.contains (key e)
 
 set_option maxRecDepth 200000 in
 /-- **Table obligation**: every call and panicking operator outside every wrapper is on the reviewed list. -/
